@@ -22,8 +22,59 @@ if TYPE_CHECKING:
     from numpy.typing import DTypeLike
 
     from ..grids.boundaries.axes import BoundariesData
-    from ..tools.typing import Number, NumberOrArray
+    from ..tools.expressions import ScalarExpression
+    from ..tools.typing import Number, NumberOrArray, NumericArray
     from .vectorial import VectorField
+
+
+def _evaluate_expression_on_grid(expr: ScalarExpression, grid: GridBase) -> NumericArray:
+    """Evaluate a scalar expression at all support points of a grid.
+
+    Args:
+        expr (:class:`~pde.tools.expressions.ScalarExpression`):
+            The expression, which depends on the axes of the grid. Constants of the
+            expression that are arrays defined on the grid are supported.
+        grid (:class:`~pde.grids.base.GridBase`):
+            Grid defining the points at which the expression is evaluated
+
+    Returns:
+        :class:`~numpy.ndarray`: The values of the expression (or a scalar if the
+        expression does not depend on the position)
+    """
+    # obtain the coordinates of the grid points
+    points = [grid.cell_coords[..., i] for i in range(grid.num_axes)]
+
+    try:
+        # try evaluating the expression using a vectorized call
+        return expr(*points)  # type: ignore
+    except ValueError:
+        pass  # if this fails, evaluate expression point-wise
+
+    # Constants that are defined on the grid (e.g., `cartesian`) need to be evaluated at
+    # the respective point, too. We thus turn them into extra arguments.
+    num_axes = grid.num_axes
+    consts_grid = [
+        name
+        for name, value in expr.consts.items()
+        if isinstance(value, np.ndarray)
+        and value.ndim >= num_axes
+        and value.shape[value.ndim - num_axes :] == grid.shape
+    ]
+    values_grid = [expr.consts[name] for name in consts_grid]
+    if consts_grid:
+        expr = expr.__class__(
+            expr._sympy_expr,
+            signature=[*expr.vars, *consts_grid],
+            user_funcs=expr.user_funcs,
+            consts={k: v for k, v in expr.consts.items() if k not in consts_grid},
+            allow_indexed=True,
+        )
+
+    data = np.empty(grid.shape)
+    for cells in np.ndindex(*grid.shape):
+        consts_cell = [value[(..., *cells)] for value in values_grid]
+        data[cells] = expr(*grid.cell_coords[cells], *consts_cell)
+    return data
 
 
 class ScalarField(DataFieldBase):
@@ -90,18 +141,7 @@ class ScalarField(DataFieldBase):
             repl=grid.c._axes_alt_repl,
             allow_indexed=True,
         )
-        # obtain the coordinates of the grid points
-        points = [grid.cell_coords[..., i] for i in range(grid.num_axes)]
-
-        try:
-            # try evaluating the expression using a vectorized call
-            data = expr(*points)
-        except ValueError:
-            # if this fails, evaluate expression point-wise
-            data = np.empty(grid.shape)
-            for cells in np.ndindex(*grid.shape):
-                data[cells] = expr(*grid.cell_coords[cells])
-
+        data = _evaluate_expression_on_grid(expr, grid)
         return cls(grid=grid, data=data, label=label, dtype=dtype)
 
     @classmethod
